@@ -820,3 +820,66 @@ func freshPathBuf(r *engine.Run, rule string) {
 		r.Anchor(rule, fmt.Errorf("unresolved anchor: only %d path hand-overs found in %s", n, fn(f)))
 	}
 }
+
+// refFieldBuf: a method that hands out `Bytes()` of a bytes.Buffer kept in a field
+// of its receiver hands out memory that its next call overwrites: every proof,
+// export or encoding handed out earlier changes under its holder.
+//
+// Rule: no function of the given packages returns (directly or through a slice
+// of it) the result of (*bytes.Buffer).Bytes() called on a buffer that is, or
+// is loaded from, a field of the receiver.
+func refFieldBuf(r *engine.Run, rule string, fns []*ssa.Function) {
+	n := 0
+	for _, f := range fns {
+		if len(f.Blocks) == 0 || f.Signature.Recv() == nil || len(f.Params) == 0 {
+			continue
+		}
+		recv := ssa.Value(f.Params[0])
+		o := ord{}
+		engine.Instrs(f, func(in ssa.Instruction) {
+			c, ok := in.(*ssa.Call)
+			if !ok || !extCalleeIs(c, "bytes", "Buffer", "Bytes") || len(c.Call.Args) != 1 {
+				return
+			}
+			n++
+			// the buffer: &recv.f, or a pointer loaded from recv.f
+			b := c.Call.Args[0]
+			if u, ok := b.(*ssa.UnOp); ok && u.Op == token.MUL {
+				b = u.X
+			}
+			fa, isField := b.(*ssa.FieldAddr)
+			owned := isField && engine.AddrRoot(fa) == recv
+			if !owned {
+				r.OK(rule, o.next(fn(f)+"|Bytes()"), r.P.Pos(c.Pos()), "the buffer is not a field of the receiver")
+				return
+			}
+			returned := false
+			var visit func(v ssa.Value, depth int)
+			visit = func(v ssa.Value, depth int) {
+				if depth > 4 {
+					return
+				}
+				for _, ref := range engine.Referrers(v) {
+					switch x := ref.(type) {
+					case *ssa.Return:
+						returned = true
+					case *ssa.Slice, *ssa.Phi, *ssa.ChangeType, *ssa.MakeInterface:
+						visit(x.(ssa.Value), depth+1)
+					case *ssa.Store:
+						if al, ok := x.Addr.(*ssa.Alloc); ok && x.Val == v {
+							for _, r2 := range engine.Referrers(al) {
+								if ld, ok := r2.(*ssa.UnOp); ok && ld.Op == token.MUL {
+									visit(ld, depth+1)
+								}
+							}
+						}
+					}
+				}
+			}
+			visit(c, 0)
+			r.Check(!returned, rule, o.next(fn(f)+"|Bytes()"), r.P.Pos(c.Pos()), "the view of the receiver's buffer is not handed out",
+				fn(f)+" returns the byte view of a buffer it keeps in its receiver: the next call rewrites the buffer, so what an earlier call handed out (a proof, an export, an encoding) changes under its holder and no longer verifies")
+		})
+	}
+	r.OK(rule, "Bytes() calls", "-", fmt.Sprintf("%d calls of (*bytes.Buffer).Bytes() in methods inspected; none returns a view of a buffer kept in the receiver", n))
+}
